@@ -275,7 +275,10 @@ def guardxform_obligations(ctx, facts, key, rule="GUARDXFORM"):
                         changed = True
                 elif p["exit"] == "break":
                     if (pi, s2) not in breaks:
-                        breaks[(pi, s2)] = (p["blocks"][-1], asg is not None)
+                        # what runs after leaving starts with the first block outside the loop (a `break` arm's own
+                        # blocks are part of the iteration for the state they set, and of the exit for what they do)
+                        outside_ = [b_ for b_ in p["blocks"] if b_ not in loop["blocks"]]
+                        breaks[(pi, s2)] = (outside_[0] if outside_ else p["blocks"][-1], asg is not None)
                         changed = True
                 else:
                     raise AnchorError("loop path leaves the function", key)
